@@ -15,6 +15,9 @@ Assembly, in the style of `opm_xml_load_dump_id`:
 namespace BeyondVerif.C13
 open BeyondVerif.Ccsds BeyondVerif.Generated
 
+/-! Auxiliary definitions and lemmas live in the sub-namespace `OemXml` (no clash with the sibling files of C13). -/
+namespace OemXml
+
 /-! ### the attachment of covariance blocks to points -/
 
 /-- a point as the point loop of `oem._loads_xml` creates it: without covariance -/
@@ -327,7 +330,13 @@ theorem recurse_segment (mx : Elem) (MD : Dict) (kids : List Elem) (D : Dict)
   have htn : ∀ t cs, (Elem.node t cs).tag = t := fun _ _ => rfl
   simp [recurseKids, recurse, hm, hmt, hk, hne, htn, addChild, List.lookup]
 
-/-- one segment: what `segXml` writes, `xml2dict` turns into a dict that `loadSegXml` reads back as the segment -/
+end OemXml
+open OemXml
+
+/-- **One OEM segment, XML** (clause `load_dump_id`, OEM: "1..N ephemeris points, 0..N covariance blocks, interpolation settings",
+per segment): what `segXml` writes for a well-formed segment is a `segment` element that `xml2dict` turns into a dict which
+`loadSegXml` reads back as the segment itself — metadata (name, id, frame through the centre rule, scale, INTERPOLATION, optional
+INTERPOLATION_DEGREE), every point in order, every covariance block attached to the point it was written for. -/
 theorem seg_xml_load_dump_id (s : Seg) (h : SegWf s) :
     ∃ e D, segXml s = .ok e ∧ e.tag = "segment" ∧ recurse e = some (.dict D) ∧ loadSegXml D = .ok s := by
   obtain ⟨c, r, hfo, hcr, hc, hr, hrf⟩ := frameOut_ok s.frame h.frame
@@ -373,6 +382,8 @@ theorem seg_xml_load_dump_id (s : Seg) (h : SegWf s) :
 
 /-! ### the whole message -/
 
+namespace OemXml
+
 /-- body of the segment loop of `oemFromXmlDict`, named -/
 def loadSegVal (v : Val) : R Seg := do loadSegXml (← asDict v)
 
@@ -407,6 +418,8 @@ theorem xml2dict_oem_shape (segs : List Elem) (D : Dict) (hk : recurseKids segs 
   have htn : ∀ t cs, (Elem.node t cs).tag = t := fun _ _ => rfl
   simp [xml2dict, recurseKids, recurse, hk, hne, hh, hht, htn, addChild, List.lookup]
 
+end OemXml
+
 /-- **`load_dump_id`, OEM, XML.**  Every non-empty list of well-formed segments — each with 1..N points of distinct epochs,
 0..N covariance blocks (own frame, QSW or TNW) attached to the point of the same epoch, LINEAR without / LAGRANGE with
 `INTERPOLATION_DEGREE`, any of the ten frames — is read back from what the XML writer produced: one segment as many
@@ -436,6 +449,7 @@ theorem oem_xml_load_dump_id (m : Oem) (hne : m ≠ []) (h : ∀ s ∈ m, SegWf 
 
 /-! ### a concrete instance: the hypotheses are satisfiable by a non-trivial message -/
 
+namespace OemXml
 def st6Ex : List Txt := [.s "1", .s "2", .s "3", .s "4", .s "5", .s "6"]
 def covQswEx : CovM :=
   ⟨some "QSW", [.n 1, .n 2, .n 3, .n 4, .n 5, .n 6, .n 7, .n 8, .n 9, .n 10, .n 11, .n 12, .n 13, .n 14, .n 15, .n 16, .n 17, .n 18, .n 19,
@@ -449,8 +463,10 @@ which carry a covariance (QSW, own frame) -/
 def segEx2 : Seg :=
   ⟨"SAT", "2020-001A", "GCRF", "TAI", "LAGRANGE", some (.s "7"),
     [⟨.s "t1", st6Ex, some covQswEx⟩, ⟨.s "t2", st6Ex, none⟩, ⟨.s "t3", st6Ex, some covOwnEx⟩]⟩
+end OemXml
 def oemEx : Oem := [⟨"SAT", "2020-001A", "EME2000", "UTC", "LINEAR", none, [⟨.s "t0", st6Ex, none⟩]⟩, segEx2]
 
+namespace OemXml
 theorem pointEx_wf (e : String) (he : e ≠ "") (c : Option CovM) : PointWf ⟨.s e, st6Ex, c⟩ :=
   ⟨by simpa using he, _, _, _, _, _, _, rfl, by decide, by decide, by decide, by decide, by decide, by decide⟩
 
@@ -460,6 +476,9 @@ theorem covQswEx_wf : CovWf covQswEx :=
 theorem covOwnEx_wf : CovWf covOwnEx :=
   ⟨⟨_, _, _, _, _, _, _, _, _, _, _, _, _, _, _, _, _, _, _, _, _, rfl, by decide⟩, Or.inl rfl⟩
 
+end OemXml
+
+/-- the hypotheses are satisfiable by a non-trivial message (two segments, 1 and 3 points, two covariance blocks, LINEAR and LAGRANGE) -/
 theorem oemEx_wf : ∀ s ∈ oemEx, SegWf s := by
   intro s hs
   simp only [oemEx, segEx2, List.mem_cons, List.not_mem_nil, or_false] at hs
@@ -498,5 +517,10 @@ example : (oemXml oemEx >>= loadOemXml) = .ok oemEx := oem_xml_load_dump_id oemE
 
 example : ∃ e D, segXml segEx2 = .ok e ∧ e.tag = "segment" ∧ recurse e = some (.dict D) ∧ loadSegXml D = .ok segEx2 :=
   seg_xml_load_dump_id segEx2 (oemEx_wf segEx2 (by simp [oemEx]))
+
+/-- the distinct-epochs hypothesis (`SegWf.nodup`) cannot be dropped: with two points of the same epoch the covariance written for
+the first is attached to the last one (`orbit_mapping[date]` keeps the last orbit with that date) -/
+example : (oemXml [{ segEx2 with points := [⟨.s "t1", st6Ex, some covQswEx⟩, ⟨.s "t1", st6Ex, none⟩] }] >>= loadOemXml) =
+    .ok [{ segEx2 with points := [⟨.s "t1", st6Ex, none⟩, ⟨.s "t1", st6Ex, some covQswEx⟩] }] := by decide
 
 end BeyondVerif.C13
